@@ -5530,7 +5530,9 @@ class LoopConcatenate(Loop):
             return Transpose.from_end(loop_concatenate(Transpose.to_end(_takediag(self.func, axis1, axis2), -2), self.index), -2)
 
     def _take(self, index, axis):
-        if axis < self.ndim-1:
+        # If `index` depends on `self.index` then it belongs to an outer loop
+        # over the same index and must not be moved inside this loop.
+        if axis < self.ndim-1 and self.index not in index.arguments:
             return loop_concatenate(_take(self.func, index, axis), self.index)
 
     def _unravel(self, axis, shape):
